@@ -2934,10 +2934,13 @@ func (bc *Blockchain) ApplyPolicyToTxSet(txes []*transaction.Transaction) []*tra
 	maxBlockSysFee := bc.config.MaxBlockSystemFee
 	oldVC := bc.knownValidatorsCount.Load()
 	defaultWitness := bc.defaultBlockWitness.Load()
-	curVC := bc.config.GetNumOfCNs(bc.BlockHeight() + 1)
+	// The next block is signed by the validators stored for it, their number
+	// differs from the configured one for the block that changes it.
+	nextVals := bc.neo.GetNextBlockValidatorsInternal(bc.dao)
+	curVC := len(nextVals)
 	if oldVC == nil || oldVC != curVC {
 		m := smartcontract.GetDefaultHonestNodeCount(curVC)
-		verification, _ := smartcontract.CreateDefaultMultiSigRedeemScript(bc.neo.GetNextBlockValidatorsInternal(bc.dao))
+		verification, _ := smartcontract.CreateDefaultMultiSigRedeemScript(nextVals)
 		defaultWitness = transaction.Witness{
 			InvocationScript:   make([]byte, 66*m),
 			VerificationScript: verification,
